@@ -1247,6 +1247,7 @@ type MutexState struct {
 	id      int
 	writer  bool
 	readers int
+	wWait   int // writers blocked in Lock: like the real RWMutex, a pending writer keeps NEW readers out (a recursive read lock deadlocks once a writer arrives in between)
 	waiters WaitList
 	wTok    uint64
 	rTok    uint64
@@ -1299,7 +1300,9 @@ func Lock(pp **MutexState) {
 		m.waiters.add(t)
 		s.St.LockBlocks++
 		s.ev("lb", t.ID, m.id)
+		m.wWait++
 		s.block(t)
+		m.wWait--
 	}
 	m.writer = true
 	s.ev("lk", s.cur.ID, m.id)
@@ -1367,7 +1370,7 @@ func RLock(pp **MutexState) {
 	}
 	s.St.LockOps++
 	SchedPoint('R', m.id)
-	for m.writer {
+	for m.writer || m.wWait > 0 {
 		t := s.cur
 		m.waiters.add(t)
 		s.St.LockBlocks++
@@ -1388,7 +1391,7 @@ func TryRLock(pp **MutexState) bool {
 		s.St.LockOps++
 		SchedPoint('R', m.id)
 	}
-	if m.writer {
+	if m.writer || m.wWait > 0 {
 		return false
 	}
 	m.readers++
